@@ -1,10 +1,926 @@
 package rules
 
-import "pandoravet/core"
+import (
+	"fmt"
+	"go/ast"
+	"go/constant"
+	"go/token"
+	"go/types"
+	"os"
+	"path/filepath"
+	"reflect"
+	"regexp"
+	"sort"
+	"strconv"
+	"strings"
+	"time"
+
+	. "pandoravet/core"
+
+	"golang.org/x/tools/go/ssa"
+)
 
 func init() {
 	register(&Pack{Property: "C17", Title: "Config decoding", Run: runC17})
 }
 
-func runC17(c *core.Ctx) {
+// c17Constraints is the reference table of value constraints confirmed by reading the
+// configuration structs and docs (key: package-relative type.field). A field may carry MORE
+// rules than listed; a listed rule that is missing or weakened is reported.
+var c17Constraints = map[string]string{
+	"cli.expvarConfig.Port":                              "required",
+	"components/guns/grpc.AnswLogConfig.Filter":          "omitempty,oneof=all warning error",
+	"components/guns/grpc/scenario.AnswLogConfig.Filter": "omitempty,oneof=all warning error",
+	"components/guns/http.AnswLogConfig.Filter":          "omitempty,oneof=all warning error",
+	"components/guns/http.AutoTagConfig.URIElements":     "min=1",
+	"components/guns/http.GunConfig.Target":              "endpoint,required",
+	"components/providers/grpc/grpcjson.Config.Limit":    "min=0",
+	"components/providers/grpc/grpcjson.Config.Passes":   "min=0",
+	"components/guns/grpc.GunConfig.Target":              "required",
+	"components/guns/grpc/scenario.GunConfig.Target":     "required",
+	"core/datasource.InlineConfig.Data":                  "required",
+	"core/provider.DecodeProviderConfig.Limit":           "min=0",
+	"core/provider.DecodeProviderConfig.Passes":          "min=0",
+	"core/schedule.InstanceStepConfig.From":              "min=0",
+	"core/schedule.InstanceStepConfig.To":                "min=0",
+	"core/schedule.InstanceStepConfig.Step":              "min=1",
+	"core/schedule.InstanceStepConfig.StepDuration":      "min-time=1ms",
+	"core/aggregator.EncoderAggregatorConfig.Sink":       "required",
+	"core/aggregator.ReporterConfig.SampleQueueSize":     "min=1",
+	"core/datasink.FileConfig.Path":                      "required",
+	"core/datasource.FileConfig.Path":                    "required",
+	"core/engine.Config.Pools":                           "required,dive",
+	"core/engine.InstancePoolConfig.Provider":            "required",
+	"core/engine.InstancePoolConfig.Aggregator":          "required",
+	"core/engine.InstancePoolConfig.NewGun":              "required",
+	"core/engine.InstancePoolConfig.StartupSchedule":     "required",
+	"core/engine.InstancePoolConfig.NewRPSSchedule":      "required",
+	"core/provider.DecodeProviderConfig.Source":          "required",
+	"core/provider.AmmoQueueConfig.AmmoQueueSize":        "min=1",
+	"core/schedule.ConstConfig.Ops":                      "min=0",
+	"core/schedule.ConstConfig.Duration":                 "min-time=1ms",
+	"core/schedule.LineConfig.From":                      "min=0",
+	"core/schedule.LineConfig.To":                        "min=0",
+	"core/schedule.LineConfig.Duration":                  "min-time=1ms",
+	"core/schedule.OnceConfig.Times":                     "min=1",
+	"core/schedule.StepConfig.From":                      "min=0",
+	"core/schedule.StepConfig.To":                        "min=0",
+	"core/schedule.StepConfig.Step":                      "min=1",
+	"core/schedule.StepConfig.Duration":                  "min-time=1ms",
+	"core/schedule.UnlimitedConfig.Duration":             "min-time=1ms",
+}
+
+type tagRule struct{ name, param string }
+
+func parseRules(tag string) []tagRule {
+	var out []tagRule
+	for _, part := range strings.Split(tag, ",") {
+		part = strings.TrimSpace(part)
+		if part == "" {
+			continue
+		}
+		n, p, _ := strings.Cut(part, "=")
+		out = append(out, tagRule{n, p})
+	}
+	return out
+}
+
+// ruleImplies reports whether rule `have` is at least as strong as rule `want`.
+func ruleImplies(have, want tagRule) bool {
+	norm := func(r tagRule) tagRule {
+		switch r.name {
+		case "gte":
+			r.name = "min"
+		case "lte":
+			r.name = "max"
+		}
+		return r
+	}
+	have, want = norm(have), norm(want)
+	if have.name != want.name {
+		// gt=k implies min=k+... keep exact families only
+		return false
+	}
+	if have.param == want.param {
+		return true
+	}
+	switch want.name {
+	case "min":
+		h, e1 := strconv.ParseFloat(have.param, 64)
+		w, e2 := strconv.ParseFloat(want.param, 64)
+		return e1 == nil && e2 == nil && h >= w
+	case "max":
+		h, e1 := strconv.ParseFloat(have.param, 64)
+		w, e2 := strconv.ParseFloat(want.param, 64)
+		return e1 == nil && e2 == nil && h <= w
+	case "oneof":
+		hs, ws := strings.Fields(have.param), map[string]bool{}
+		for _, x := range strings.Fields(want.param) {
+			ws[x] = true
+		}
+		for _, x := range hs {
+			if !ws[x] {
+				return false
+			}
+		}
+		return len(hs) > 0
+	}
+	return false
+}
+
+func runC17(c *Ctx) {
+	c.Rule("O17.1", "strict decoder: the mapstructure.DecoderConfig used for configuration has ErrorUnused=true, ZeroFields=false, WeaklyTypedInput=false, TagName=\"config\" and the compiled hook chain; DecodeAndValidate validates exactly when decoding succeeded and returns either error")
+	c.Rule("O17.2", "hook order: the variable-injection hook is the first element of DefaultHooks(); the plugin hooks are added after the composite-schedule hook")
+	c.Rule("O17.3", "nested plugin config is decoded strictly and validated: the fillConf closure of parseConf calls config.DecodeAndValidate(<map without the type key>, conf) on every path and returns its error; only the type key is deleted from the map; the registry calls fillConf on every creation (on an empty struct when the constructor takes no config) and fails creation on its error")
+	c.Rule("O17.4", "validation tags: every validate rule name exists in the validator (its own bakedInValidators table or pandora's registrations); the reference constraints of the configuration fields are present and not weakened")
+	c.Rule("O17.7", "placeholders: the env resolver fails on the !ok edge of LookupEnv, the property resolver fails when the placeholder has no '#', the file cannot be opened or the property is absent; resolvers are registered for \"\", ENV and PROPERTY; cast handles bool, every int/uint kind, floats and string; the inject hook returns the resolver's error")
+	c.Rule("O17.8", "constraints are written under the key the validator reads: in structs of production packages every struct-tag key is one that some decoder/validator in the build reads (config, validate, map, json, yaml, hcl, mapstructure)")
+	for _, st := range []struct {
+		n string
+		f func(*Ctx)
+	}{{"decoder", c17Decoder}, {"hooks", c17Hooks}, {"fillconf", c17FillConf}, {"tags", c17Tags}, {"placeholders", c17Placeholders}} {
+		t0 := time.Now()
+		st.f(c)
+		c.Note("stage %s: %.1fs", st.n, time.Since(t0).Seconds())
+	}
+}
+
+// compositeFields returns the values stored to the fields of a composite literal allocation.
+func compositeFields(fn *ssa.Function, typeName string) map[string]ssa.Value {
+	out := map[string]ssa.Value{}
+	EachInstr(fn, func(in ssa.Instruction) {
+		st, ok := in.(*ssa.Store)
+		if !ok {
+			return
+		}
+		fa, ok := st.Addr.(*ssa.FieldAddr)
+		if !ok {
+			return
+		}
+		if _, isA := fa.X.(*ssa.Alloc); !isA {
+			return
+		}
+		fv, base := FieldOf(fa)
+		if fv == nil {
+			return
+		}
+		if _, n := NamedOf(base.Type()); n != typeName {
+			return
+		}
+		out[fv.Name()] = st.Val
+	})
+	return out
+}
+
+func c17Decoder(c *Ctx) {
+	P := c.P
+	ndc := P.Func("core/config", "", "newDecoderConfig")
+	dec := P.Func("core/config", "", "Decode")
+	dav := P.Func("core/config", "", "DecodeAndValidate")
+	val := P.Func("core/config", "", "Validate")
+	if ndc == nil || dec == nil || dav == nil || val == nil {
+		c.Anchor("O17.1", "core/config.newDecoderConfig / Decode / DecodeAndValidate / Validate")
+		return
+	}
+	f := compositeFields(ndc, "DecoderConfig")
+	boolOf := func(name string) (bool, bool) {
+		v, ok := f[name]
+		if !ok {
+			return false, true // absent = zero value
+		}
+		return ConstCond(v)
+	}
+	eu, ok1 := boolOf("ErrorUnused")
+	zf, ok2 := boolOf("ZeroFields")
+	wt, ok3 := boolOf("WeaklyTypedInput")
+	c.Check(ok1 && eu, "O17.1", fk(ndc)+":ErrorUnused", ndc.Pos(), "ErrorUnused must be the constant true: unknown keys are errors")
+	c.Check(ok2 && !zf, "O17.1", fk(ndc)+":ZeroFields", ndc.Pos(), "ZeroFields must be false: options that are not given keep the defaults already in the result")
+	c.Check(ok3 && !wt, "O17.1", fk(ndc)+":WeaklyTypedInput", ndc.Pos(), "WeaklyTypedInput must be false: wrongly typed values are errors")
+	tn, _ := ConstString(f["TagName"])
+	c.Check(tn == "config", "O17.1", fk(ndc)+":TagName", ndc.Pos(), fmt.Sprintf("TagName = %q (want \"config\")", tn))
+	okRes := len(ndc.Params) == 1 && f["Result"] == ssa.Value(ndc.Params[0])
+	c.Check(okRes, "O17.1", fk(ndc)+":Result", ndc.Pos(), "Result is the caller's target")
+	okHook := false
+	if h, ok := f["DecodeHook"]; ok {
+		okHook = DerivesOnly(h, false, func(v ssa.Value) bool {
+			u, ok := v.(*ssa.UnOp)
+			if !ok {
+				return false
+			}
+			g, ok := u.X.(*ssa.Global)
+			return ok && g.Name() == "compiledHook"
+		})
+	}
+	c.Check(okHook && len(Calls(ndc, Spec{"./core/config", "", "compileHooks"})) == 1, "O17.1", fk(ndc)+":DecodeHook", ndc.Pos(), "DecodeHook is the hook chain compiled by compileHooks() in this call")
+	// who else builds a DecoderConfig on the config path: only Map (struct-to-struct mapping, not user input)
+	n := 0
+	for _, fn := range P.ProdFuncs() {
+		if fn == ndc {
+			continue
+		}
+		if len(compositeFields(fn, "DecoderConfig")) > 0 {
+			n++
+			isMap := fn.Name() == "Map" && PkgOf(fn) == Mod+"/core/config"
+			c.Check(isMap, "O17.1", fk(fn)+":other-decoder-config", fn.Pos(), "a second mapstructure.DecoderConfig: configuration must be decoded through core/config.Decode (config.Map maps struct to struct and is the only named exception)")
+		}
+	}
+	// Decode uses it
+	okDec := false
+	EachInstr(dec, func(in ssa.Instruction) {
+		if cl, ok := in.(*ssa.Call); ok && MatchCC(&cl.Call, Spec{"github.com/mitchellh/mapstructure", "", "NewDecoder"}) {
+			if a, _ := CallOfValue(cl.Call.Args[0]); a != nil && a.Call.StaticCallee() == ndc && a.Call.Args[0] == ssa.Value(dec.Params[1]) {
+				okDec = true
+			}
+		}
+	})
+	c.Check(okDec, "O17.1", fk(dec)+":uses-the-strict-config", dec.Pos(), "Decode builds its decoder from newDecoderConfig(result)")
+	// DecodeAndValidate
+	var dcall, vcall *ssa.Call
+	EachInstr(dav, func(in ssa.Instruction) {
+		if cl, ok := in.(*ssa.Call); ok {
+			switch cl.Call.StaticCallee() {
+			case dec:
+				dcall = cl
+			case val:
+				vcall = cl
+			}
+		}
+	})
+	okDav := dcall != nil && vcall != nil
+	if okDav {
+		okDav = checkErrPropagated(c, "O17.1", fk(dav)+":decode-error-returned", dcall)
+		isE := func(v ssa.Value) bool { return v == ssa.Value(dcall) }
+		iv := PathQuery{Fn: dav, Start: dcall, Edge: assumeNil(isE), Weight: func(in ssa.Instruction) (int, int) {
+			if in == ssa.Instruction(vcall) {
+				return 1, 1
+			}
+			return 0, 0
+		}}.Count()
+		okRet := false
+		EachInstr(dav, func(in ssa.Instruction) {
+			if r, ok := in.(*ssa.Return); ok && r.Results[0] == ssa.Value(vcall) {
+				okRet = true
+			}
+		})
+		c.Check(iv.Is(1, 1) && okRet && vcall.Call.Args[0] == ssa.Value(dav.Params[1]), "O17.1", fk(dav)+":validated-after-successful-decode", dav.Pos(), fmt.Sprintf("Validate(result) on the decode-succeeded edge = %v (want [1,1]) and its error returned: %v", iv, okRet))
+	} else {
+		c.Bad("O17.1", fk(dav)+":validated-after-successful-decode", dav.Pos(), "DecodeAndValidate must call Decode and Validate")
+	}
+}
+
+func c17Hooks(c *Ctx) {
+	P := c.P
+	dh := P.Func("core/config", "", "DefaultHooks")
+	vi := P.Func("core/config", "", "VariableInjectHook")
+	if dh == nil || vi == nil {
+		c.Anchor("O17.2", "core/config.DefaultHooks / VariableInjectHook")
+	} else {
+		// store to index 0 of the returned slice's backing array
+		first := ""
+		EachInstr(dh, func(in ssa.Instruction) {
+			st, ok := in.(*ssa.Store)
+			if !ok {
+				return
+			}
+			ia, ok := st.Addr.(*ssa.IndexAddr)
+			if !ok {
+				return
+			}
+			if k, isK := ConstInt(ia.Index); isK && k == 0 {
+				for _, r := range Roots(st.Val, false) {
+					if f, ok := Strip(r).(*ssa.Function); ok {
+						first = f.Name()
+					}
+				}
+			}
+		})
+		c.Check(first == "VariableInjectHook", "O17.2", fk(dh)+":inject-hook-first", dh.Pos(), fmt.Sprintf("DefaultHooks()[0] = %s (want VariableInjectHook: placeholders are substituted before any type-specific hook sees the string)", first))
+		// hooks var initialised from DefaultHooks and only appended to
+		sp := P.SSAPkg("core/config")
+		okInit := false
+		if init := sp.Func("init"); init != nil {
+			EachInstr(init, func(in ssa.Instruction) {
+				if st, ok := in.(*ssa.Store); ok {
+					if g, ok := st.Addr.(*ssa.Global); ok && g.Name() == "hooks" {
+						if cl, _ := CallOfValue(st.Val); cl != nil && cl.Call.StaticCallee() == dh {
+							okInit = true
+						}
+					}
+				}
+			})
+		}
+		c.Check(okInit, "O17.2", "core/config.hooks:initialised-from-DefaultHooks", dh.Pos(), "the hook list starts as DefaultHooks()")
+		okAppend := true
+		for _, fn := range PkgFuncs(sp) {
+			if !IsProdFile(P.File(fn.Pos())) || fn.Name() == "init" || fn.Name() == "SetHooks" {
+				continue
+			}
+			EachInstr(fn, func(in ssa.Instruction) {
+				if st, ok := in.(*ssa.Store); ok {
+					if g, ok := st.Addr.(*ssa.Global); ok && g.Name() == "hooks" {
+						cl, _ := CallOfValue(st.Val)
+						if cl == nil || !IsBuiltinCall(cl, "append") {
+							okAppend = false
+						} else if u, ok := cl.Call.Args[0].(*ssa.UnOp); !ok || u.X != ssa.Value(g) {
+							okAppend = false
+						}
+					}
+				}
+			})
+		}
+		c.Check(okAppend, "O17.2", "core/config.hooks:later-hooks-are-appended", dh.Pos(), "AddTypeHook/AddKindHook append to the hook list (they never prepend or replace)")
+		// SetHooks is not called by production code
+		nSet := 0
+		if sh := P.Func("core/config", "", "SetHooks"); sh != nil {
+			for _, fn := range P.ProdFuncs() {
+				EachInstr(fn, func(in ssa.Instruction) {
+					if cc := CC(in); cc != nil && cc.StaticCallee() == sh {
+						nSet++
+					}
+				})
+			}
+		}
+		c.Check(nSet == 0, "O17.2", "core/config.SetHooks:not-used-in-production", dh.Pos(), fmt.Sprintf("%d production call(s) of config.SetHooks (a replaced chain may lose the inject hook)", nSet))
+	}
+	imp := P.Func("core/import", "", "Import")
+	if imp == nil {
+		c.Anchor("O17.2", "core/import.Import")
+		return
+	}
+	var comp, plug ssa.Instruction
+	EachInstr(imp, func(in ssa.Instruction) {
+		cc := CC(in)
+		if cc == nil || cc.StaticCallee() == nil {
+			return
+		}
+		switch cc.StaticCallee().Name() {
+		case "AddTypeHook":
+			for _, r := range Roots(cc.Args[0], false) {
+				if f, ok := Strip(r).(*ssa.Function); ok && f.Name() == "scheduleSliceToCompositeConfigHook" {
+					comp = in
+				}
+			}
+		case "AddHooks":
+			if PkgOf(cc.StaticCallee()) == Mod+"/core/plugin/pluginconfig" {
+				plug = in
+			}
+		}
+	})
+	c.Check(comp != nil && plug != nil && InstrDominates(comp, plug), "O17.2", fk(imp)+":plugin-hooks-after-composite-schedule-hook", imp.Pos(), "pluginconfig.AddHooks() must come after the composite-schedule hook was added")
+	// resolvers
+	want := map[string]string{"": "EnvTagResolver", "ENV": "EnvTagResolver", "PROPERTY": "PropertyTagResolver"}
+	got := map[string]string{}
+	EachInstr(imp, func(in ssa.Instruction) {
+		if IsCall(in, Spec{"./lib/confutil", "", "RegisterTagResolver"}) {
+			cc := CC(in)
+			k, _ := ConstString(cc.Args[0])
+			for _, r := range Roots(cc.Args[1], false) {
+				if u, ok := r.(*ssa.UnOp); ok {
+					if g, ok := u.X.(*ssa.Global); ok {
+						got[k] = g.Name()
+					}
+				}
+			}
+		}
+	})
+	c.Check(reflect.DeepEqual(want, got), "O17.7", fk(imp)+":resolvers-registered", imp.Pos(), fmt.Sprintf("registered placeholder resolvers: %v (want %v)", got, want))
+}
+
+func c17FillConf(c *Ctx) {
+	P := c.P
+	pc := P.Func("core/plugin/pluginconfig", "", "parseConf")
+	dav := P.Func("core/config", "", "DecodeAndValidate")
+	if pc == nil || dav == nil {
+		c.Anchor("O17.3", "pluginconfig.parseConf / config.DecodeAndValidate")
+		return
+	}
+	var fill *ssa.Function
+	for _, a := range pc.AnonFuncs {
+		if len(a.Params) == 1 {
+			fill = a
+		}
+	}
+	if fill == nil {
+		c.Anchor("O17.3", "the fillConf closure of parseConf")
+		return
+	}
+	var call *ssa.Call
+	EachInstr(fill, func(in ssa.Instruction) {
+		if cl, ok := in.(*ssa.Call); ok && cl.Call.StaticCallee() == dav {
+			call = cl
+		}
+	})
+	if call == nil {
+		c.Bad("O17.3", fk(fill)+":strict-decode-and-validate", fill.Pos(), "fillConf does not call config.DecodeAndValidate")
+		return
+	}
+	iv := countCalls(fill, func(in ssa.Instruction) bool { return in == ssa.Instruction(call) })
+	okArgs := call.Call.Args[1] == ssa.Value(fill.Params[0])
+	// arg 0: the confData map of parseConf (captured)
+	var tsk *ssa.Call
+	EachInstr(pc, func(in ssa.Instruction) {
+		if cl, ok := in.(*ssa.Call); ok && cl.Call.StaticCallee() != nil && cl.Call.StaticCallee().Name() == "toStringKeyMap" {
+			tsk = cl
+		}
+	})
+	okMap := tsk != nil && DerivesOnly(call.Call.Args[0], false, IsResultOf(tsk, 0))
+	c.Check(iv.Is(1, 1) && okArgs && okMap, "O17.3", fk(fill)+":strict-decode-and-validate", call.Pos(),
+		fmt.Sprintf("DecodeAndValidate(confData, conf) per fillConf call = %v (want [1,1] - also for a config struct without fields: that is how unknown keys of config-less plugins are rejected); conf is the closure's argument: %v; the map is parseConf's confData: %v", iv, okArgs, okMap))
+	// error returned
+	okErr := false
+	EachInstr(fill, func(in ssa.Instruction) {
+		if r, ok := in.(*ssa.Return); ok {
+			if ErrDerives(r.Results[0], func(v ssa.Value) bool { return v == ssa.Value(call) }) || DerivesAny(r.Results[0], false, func(v ssa.Value) bool { return v == ssa.Value(call) }) {
+				okErr = true
+			}
+			// the wrapped form: errors.Errorf(..., err) on err != nil, else err
+			for _, rt := range Roots(r.Results[0], false) {
+				if cl, _ := CallOfValue(rt); cl != nil && MatchCC(&cl.Call, Spec{"github.com/pkg/errors", "", "Errorf"}, Spec{"fmt", "", "Errorf"}) {
+					for _, f := range CmpFactsAt(cl) {
+						if f.Op == token.NEQ && IsNilConst(f.Y) && DerivesAny(f.X, false, func(v ssa.Value) bool { return v == ssa.Value(call) }) {
+							okErr = true
+						}
+					}
+				}
+			}
+		}
+	})
+	nilOnly := true
+	EachInstr(fill, func(in ssa.Instruction) {
+		if r, ok := in.(*ssa.Return); ok && IsNilConst(r.Results[0]) {
+			nilOnly = false
+		}
+	})
+	c.Check(okErr && nilOnly, "O17.3", fk(fill)+":decode-error-returned", fill.Pos(), "fillConf returns the decode/validate error (possibly wrapped) and has no unconditional `return nil`")
+	// deletions from the map only for the type key
+	nDel := 0
+	okDel := true
+	EachInstr(pc, func(in ssa.Instruction) {
+		if !IsBuiltinCall(in, "delete") {
+			return
+		}
+		nDel++
+		isTypeKey := false
+		for _, f := range CmpFactsAt(in) {
+			if f.Op != token.EQL {
+				continue
+			}
+			for _, pr := range [][2]ssa.Value{{f.X, f.Y}, {f.Y, f.X}} {
+				if s, ok := ConstString(pr[0]); ok && s == "type" {
+					if cl, _ := CallOfValue(pr[1]); cl != nil && MatchCC(&cl.Call, Spec{"strings", "", "ToLower"}) {
+						isTypeKey = true
+					}
+				}
+			}
+		}
+		if !isTypeKey {
+			okDel = false
+		}
+	})
+	c.Check(nDel == 1 && okDel, "O17.3", fk(pc)+":only-the-type-key-is-removed", pc.Pos(), fmt.Sprintf("%d delete(confData, key) call(s), each under strings.ToLower(key) == \"type\": %v", nDel, okDel))
+	// registry side
+	get := P.Func("core/plugin", "defaultConfigContainer", "Get")
+	if get == nil || len(get.Params) != 2 {
+		c.Anchor("O17.3", "core/plugin.defaultConfigContainer.Get")
+	} else {
+		isFill := func(v ssa.Value) bool { return v == ssa.Value(get.Params[1]) }
+		w := func(in ssa.Instruction) (int, int) {
+			if cc := CC(in); cc != nil && isFill(cc.Value) {
+				return 1, 1
+			}
+			return 0, 0
+		}
+		iv := PathQuery{Fn: get, Weight: w, Edge: AssumeNonNil(isFill)}.Count()
+		var fc *ssa.Call
+		EachInstr(get, func(in ssa.Instruction) {
+			if cl, ok := in.(*ssa.Call); ok && isFill(cl.Call.Value) {
+				fc = cl
+			}
+		})
+		okP := fc != nil && checkErrPropagated(c, "O17.3", fk(get)+":fill-error-fails-creation", fc)
+		c.Check(iv.Is(1, 1) && okP, "O17.3", fk(get)+":config-filled-on-every-creation", get.Pos(), fmt.Sprintf("fillConf calls per Get with fillConf != nil = %v (want [1,1], also when the constructor takes no config)", iv))
+	}
+	nf := P.Func("core/plugin", "Registry", "NewFactory")
+	if nf == nil {
+		c.Anchor("O17.3", "core/plugin.(*Registry).NewFactory")
+	} else {
+		// on the !configRequired edge with fillConf != nil: fillConf(&struct{}{}) and its error returned
+		ok := false
+		EachInstr(nf, func(in ssa.Instruction) {
+			cl, isC := in.(*ssa.Call)
+			if !isC || cl.Call.StaticCallee() != nil || cl.Call.IsInvoke() {
+				return
+			}
+			if _, isB := cl.Call.Value.(*ssa.Builtin); isB {
+				return
+			}
+			if len(cl.Call.Args) != 1 {
+				return
+			}
+			if mi, isMI := cl.Call.Args[0].(*ssa.MakeInterface); isMI {
+				if pt, isP := mi.X.Type().(*types.Pointer); isP {
+					if st, isS := pt.Elem().Underlying().(*types.Struct); isS && st.NumFields() == 0 {
+						if HasBoolFact(BoolFactsAt(cl), func(v ssa.Value) bool {
+							c2, _ := CallOfValue(v)
+							return c2 != nil && c2.Call.StaticCallee() != nil && c2.Call.StaticCallee().Name() == "configRequired"
+						}, false) {
+							ok = checkErrPropagated(c, "O17.3", fk(nf)+":empty-config-check-error-returned", cl)
+						}
+					}
+				}
+			}
+		})
+		c.Check(ok, "O17.3", fk(nf)+":config-less-plugins-still-check-their-keys", nf.Pos(), "when the constructor takes no config, NewFactory calls fillConf(&struct{}{}) and returns its error: leftover keys are rejected")
+	}
+}
+
+var tagKeyRe = regexp.MustCompile(`([A-Za-z_][A-Za-z0-9_-]*):"`)
+
+func c17Tags(c *Ctx) {
+	P := c.P
+	// validator's own rule table
+	known := map[string]bool{"omitempty": true, "dive": true, "structonly": true, "nostructlevel": true, "required": true, "isdefault": true, "keys": true, "endkeys": true}
+	nBaked := 0
+	if vp := P.ByPkg["gopkg.in/bluesuncorp/validator.v9"]; vp != nil {
+		for _, f := range vp.Syntax {
+			ast.Inspect(f, func(n ast.Node) bool {
+				vs, ok := n.(*ast.ValueSpec)
+				if !ok || len(vs.Names) == 0 || vs.Names[0].Name != "bakedInValidators" || len(vs.Values) == 0 {
+					return true
+				}
+				if cl, ok := vs.Values[0].(*ast.CompositeLit); ok {
+					for _, e := range cl.Elts {
+						if kv, ok := e.(*ast.KeyValueExpr); ok {
+							if bl, ok := kv.Key.(*ast.BasicLit); ok {
+								s, _ := strconv.Unquote(bl.Value)
+								known[s] = true
+								nBaked++
+							}
+						}
+					}
+				}
+				return true
+			})
+		}
+	}
+	c.Floor("O17.4", "rules in validator.v9's bakedInValidators", nBaked, 50)
+	// pandora's registrations: the key strings of the validations / stringValidations tables
+	nReg := 0
+	if cp := P.Pkg("core/config"); cp != nil {
+		for _, f := range cp.Syntax {
+			ast.Inspect(f, func(n ast.Node) bool {
+				vs, ok := n.(*ast.ValueSpec)
+				if !ok || len(vs.Names) == 0 || (vs.Names[0].Name != "validations" && vs.Names[0].Name != "stringValidations") || len(vs.Values) == 0 {
+					return true
+				}
+				if cl, ok := vs.Values[0].(*ast.CompositeLit); ok {
+					for _, e := range cl.Elts {
+						if el, ok := e.(*ast.CompositeLit); ok && len(el.Elts) >= 1 {
+							if bl, ok := el.Elts[0].(*ast.BasicLit); ok {
+								s, _ := strconv.Unquote(bl.Value)
+								known[s] = true
+								nReg++
+							}
+						}
+					}
+				}
+				return true
+			})
+		}
+	}
+	c.Floor("O17.4", "validations registered by core/config", nReg, 6)
+	// newValidator registers both tables under the validate tag name
+	if nv := P.Func("core/config", "", "newValidator"); nv != nil {
+		okTag := false
+		EachInstr(nv, func(in ssa.Instruction) {
+			if IsCall(in, Spec{"gopkg.in/bluesuncorp/validator.v9", "Validate", "SetTagName"}) {
+				s, _ := ConstString(CC(in).Args[1])
+				okTag = s == "validate"
+			}
+		})
+		nRV := len(Calls(nv, Spec{"gopkg.in/bluesuncorp/validator.v9", "Validate", "RegisterValidation"}))
+		c.Check(okTag && nRV == 2, "O17.4", fk(nv)+":tables-registered-under-validate", nv.Pos(), fmt.Sprintf("SetTagName(\"validate\"): %v; RegisterValidation loops: %d (want 2: validations, stringValidations)", okTag, nRV))
+	} else {
+		c.Anchor("O17.4", "core/config.newValidator")
+	}
+	// every struct field tag in production packages
+	readKeys := map[string]bool{"config": true, "validate": true, "map": true, "json": true, "yaml": true, "hcl": true, "mapstructure": true}
+	seen := map[string]string{}
+	nValidate, nTagged := 0, 0
+	for _, pk := range P.Root {
+		if !IsProdPkg(pk.PkgPath) {
+			continue
+		}
+		rel := strings.TrimPrefix(strings.TrimPrefix(pk.PkgPath, Mod), "/")
+		for _, f := range pk.Syntax {
+			fname := P.Fset.Position(f.Pos()).Filename
+			if !IsProdFile(fname) {
+				continue
+			}
+			var typeStack []string
+			ast.Inspect(f, func(n ast.Node) bool {
+				ts, ok := n.(*ast.TypeSpec)
+				if !ok {
+					return true
+				}
+				st, ok := ts.Type.(*ast.StructType)
+				if !ok {
+					return true
+				}
+				typeStack = append(typeStack, ts.Name.Name)
+				var walk func(st *ast.StructType, prefix string)
+				walk = func(st *ast.StructType, prefix string) {
+					for _, fld := range st.Fields.List {
+						names := []string{}
+						for _, nm := range fld.Names {
+							names = append(names, nm.Name)
+						}
+						if len(names) == 0 {
+							names = []string{types.ExprString(fld.Type)}
+						}
+						if inner, ok := fld.Type.(*ast.StructType); ok {
+							walk(inner, prefix+names[0]+".")
+						}
+						if fld.Tag == nil {
+							continue
+						}
+						tag, err := strconv.Unquote(fld.Tag.Value)
+						if err != nil {
+							continue
+						}
+						nTagged++
+						key := rel + "." + ts.Name.Name + "." + prefix + names[0]
+						for _, m := range tagKeyRe.FindAllStringSubmatch(tag, -1) {
+							if !readKeys[m[1]] {
+								c.Bad("O17.8", key+":tag-key-"+m[1], fld.Tag.Pos(), fmt.Sprintf("struct tag key %q is read by no decoder or validator in the build (keys read: config, validate, map, json, yaml, hcl): a constraint or key written under it is never applied", m[1]))
+							}
+						}
+						v, has := reflect.StructTag(tag).Lookup("validate")
+						if !has {
+							continue
+						}
+						nValidate++
+						seen[key] = v
+						for _, r := range parseRules(v) {
+							if !known[r.name] {
+								c.Bad("O17.4", key+":unknown-rule-"+r.name, fld.Tag.Pos(), fmt.Sprintf("validate rule %q is neither in the validator's table nor registered by core/config: the validator panics or never checks it", r.name))
+							}
+						}
+					}
+				}
+				walk(st, "")
+				return true
+			})
+			_ = typeStack
+		}
+	}
+	c.OK("O17.8", "production packages:struct-tag-keys", token.NoPos, fmt.Sprintf("%d tagged struct fields scanned", nTagged))
+	c.Floor("O17.4", "validate-tagged configuration fields", nValidate, 36)
+	c.Floor("O17.8", "tagged struct fields", nTagged, 150)
+	// reference constraints
+	keys := make([]string, 0, len(c17Constraints))
+	for k := range c17Constraints {
+		keys = append(keys, k)
+	}
+	sort.Strings(keys)
+	for _, k := range keys {
+		want := parseRules(c17Constraints[k])
+		have, ok := seen[k]
+		if !ok {
+			c.Bad("O17.4", k+":constraint-present", token.NoPos, fmt.Sprintf("the field has no validate tag any more (reference: %q); if it was renamed update the table in rules/c17.go", c17Constraints[k]))
+			continue
+		}
+		hr := parseRules(have)
+		var missing []string
+		for _, w := range want {
+			found := false
+			for _, h := range hr {
+				if ruleImplies(h, w) {
+					found = true
+				}
+			}
+			// omitempty is a relaxation marker, not a constraint: its absence is stronger
+			if w.name == "omitempty" {
+				found = true
+			}
+			if !found {
+				missing = append(missing, w.name+"="+w.param)
+			}
+		}
+		// a constraint made optional by an added omitempty is a weakening
+		wantOmit, haveOmit := false, false
+		for _, w := range want {
+			if w.name == "omitempty" {
+				wantOmit = true
+			}
+		}
+		for _, h := range hr {
+			if h.name == "omitempty" {
+				haveOmit = true
+			}
+		}
+		if haveOmit && !wantOmit {
+			missing = append(missing, "(omitempty added)")
+		}
+		c.Check(len(missing) == 0, "O17.4", k+":constraint-not-weakened", token.NoPos, fmt.Sprintf("validate:%q, reference %q, missing/weakened: %v", have, c17Constraints[k], missing))
+	}
+	// fields with a validate tag that the reference does not know yet are listed for the reader
+	var extra []string
+	for k := range seen {
+		if _, ok := c17Constraints[k]; !ok {
+			extra = append(extra, k+"="+seen[k])
+		}
+	}
+	sort.Strings(extra)
+	if len(extra) > 0 {
+		c.Note("validate-tagged fields not in the reference table (accepted, not compared): %v", extra)
+	}
+}
+
+func c17Placeholders(c *Ctx) {
+	P := c.P
+	// env resolver
+	if er := P.Func("lib/confutil", "", "envTokenResolver"); er == nil {
+		c.Anchor("O17.7", "lib/confutil.envTokenResolver")
+	} else {
+		var lk *ssa.Call
+		EachInstr(er, func(in ssa.Instruction) {
+			if cl, ok := in.(*ssa.Call); ok && MatchCC(&cl.Call, Spec{"os", "", "LookupEnv"}) {
+				lk = cl
+			}
+		})
+		ok := lk != nil && lk.Call.Args[0] == ssa.Value(er.Params[0])
+		if ok {
+			for _, b := range er.Blocks {
+				r, isR := b.Instrs[len(b.Instrs)-1].(*ssa.Return)
+				if !isR {
+					continue
+				}
+				found := HasBoolFact(BoolFactsAt(r), IsResultOf(lk, 1), true)
+				missing := HasBoolFact(BoolFactsAt(r), IsResultOf(lk, 1), false)
+				isNil := IsNilConst(r.Results[1])
+				if (isNil && !found) || (!isNil && !missing) {
+					ok = false
+				}
+				if isNil && !DerivesOnly(r.Results[0], false, IsResultOf(lk, 0)) {
+					ok = false
+				}
+			}
+		}
+		c.Check(ok, "O17.7", fk(er)+":unset-variable-is-an-error", er.Pos(), "envTokenResolver returns the value exactly on the ok edge of os.LookupEnv(name) and an error on the !ok edge")
+	}
+	// property resolver: errors when no '#', open fails, property absent
+	if pr := P.Func("lib/confutil", "", "propertyTokenResolver"); pr == nil {
+		c.Anchor("O17.7", "lib/confutil.propertyTokenResolver")
+	} else {
+		nilRets, errRets := 0, 0
+		okFound := true
+		for _, b := range pr.Blocks {
+			r, isR := b.Instrs[len(b.Instrs)-1].(*ssa.Return)
+			if !isR || b == pr.Recover {
+				continue
+			}
+			isNil, known := retErrIsNil(r)
+			if !known {
+				okFound = false
+				continue
+			}
+			if isNil {
+				nilRets++
+				// only where a line's key equals the requested property
+				eq := false
+				for _, f := range CmpFactsAt(r) {
+					if f.Op == token.EQL && f.Y != nil {
+						if types.Identical(f.X.Type().Underlying(), types.Typ[types.String]) {
+							eq = true
+						}
+					}
+				}
+				if !eq {
+					okFound = false
+				}
+			} else {
+				errRets++
+			}
+		}
+		c.Check(okFound && nilRets == 1 && errRets >= 3, "O17.7", fk(pr)+":missing-property-is-an-error", pr.Pos(), fmt.Sprintf("success returns: %d (only where key == property), error returns: %d (want >= 3: malformed placeholder, unreadable file, absent property)", nilRets, errRets))
+		// no unguarded index on the split result
+		nIdx := 0
+		EachInstr(pr, func(in ssa.Instruction) {
+			if ia, ok := in.(*ssa.IndexAddr); ok {
+				if cl, _ := CallOfValue(ia.X); cl != nil && MatchCC(&cl.Call, Spec{"strings", "", "SplitN"}, Spec{"strings", "", "Split"}) {
+					k, isK := ConstInt(ia.Index)
+					if isK && k >= 1 {
+						// must be dominated by a length / Contains check
+						guarded := false
+						for _, f := range CmpFactsAt(in) {
+							if lc, ok := f.X.(*ssa.Call); ok && IsBuiltinCall(lc, "len") {
+								guarded = true
+							}
+							if lc, ok := f.Y.(*ssa.Call); ok && IsBuiltinCall(lc, "len") {
+								guarded = true
+							}
+						}
+						for _, bf := range BoolFactsAt(in) {
+							if cl2, _ := CallOfValue(bf.Subj); cl2 != nil && bf.Val && MatchCC(&cl2.Call, Spec{"strings", "", "Contains"}) {
+								guarded = true
+							}
+						}
+						if !guarded {
+							nIdx++
+						}
+					}
+				}
+			}
+		})
+		c.Check(nIdx == 0, "O17.7", fk(pr)+":malformed-placeholder-does-not-panic", pr.Pos(), fmt.Sprintf("%d unguarded index >= 1 into a Split result", nIdx))
+	}
+	// cast: kinds handled
+	if cs := P.Func("lib/confutil", "", "cast"); cs == nil {
+		c.Anchor("O17.7", "lib/confutil.cast")
+	} else {
+		kinds := map[int64]bool{}
+		EachInstr(cs, func(in ssa.Instruction) {
+			if bo, ok := in.(*ssa.BinOp); ok && bo.Op == token.EQL {
+				if k, isK := ConstInt(bo.Y); isK {
+					if cl, _ := CallOfValue(bo.X); cl != nil && cl.Call.IsInvoke() && cl.Call.Method.Name() == "Kind" {
+						kinds[k] = true
+					}
+				}
+			}
+		})
+		var missing []string
+		rp := P.ByPkg["reflect"]
+		for _, n := range []string{"Bool", "Int", "Int8", "Int16", "Int32", "Int64", "Uint", "Uint8", "Uint16", "Uint32", "Uint64", "Float32", "Float64", "String"} {
+			if rp == nil {
+				break
+			}
+			cst, ok := rp.Types.Scope().Lookup(n).(*types.Const)
+			if !ok {
+				continue
+			}
+			v, _ := constant.Int64Val(cst.Val())
+			if !kinds[v] {
+				missing = append(missing, n)
+			}
+		}
+		c.Check(rp != nil && len(missing) == 0, "O17.7", fk(cs)+":kinds-covered", cs.Pos(), fmt.Sprintf("cast switches on bool, all int/uint kinds, floats and string; missing: %v", missing))
+	}
+	// inject hook returns the resolver error; passes data through only on ErrNoTagsFound
+	if vi := P.Func("core/config", "", "VariableInjectHook"); vi != nil {
+		var rc *ssa.Call
+		EachInstr(vi, func(in ssa.Instruction) {
+			if cl, ok := in.(*ssa.Call); ok && MatchCC(&cl.Call, Spec{"./lib/confutil", "", "ResolveCustomTags"}) {
+				rc = cl
+			}
+		})
+		ok := false
+		if rc != nil {
+			e, _ := errResult(rc)
+			// some return carries e; a nil-error return with the original data only under err == ErrNoTagsFound
+			carries, okPass := false, true
+			for _, b := range vi.Blocks {
+				r, isR := b.Instrs[len(b.Instrs)-1].(*ssa.Return)
+				if !isR || !InstrDominates(rc, r) {
+					continue
+				}
+				if DerivesAny(r.Results[1], false, func(v ssa.Value) bool { return v == e }) {
+					carries = true
+				}
+				if IsNilConst(r.Results[1]) && r.Results[0] == ssa.Value(vi.Params[2]) {
+					noTags := false
+					for _, f := range CmpFactsAt(r) {
+						if f.Op == token.EQL && (DerivesAny(f.X, false, func(v ssa.Value) bool { return v == e }) || DerivesAny(f.Y, false, func(v ssa.Value) bool { return v == e })) {
+							noTags = true
+						}
+					}
+					if !noTags {
+						okPass = false
+					}
+				}
+			}
+			ok = carries && okPass && rc.Call.Args[1] == ssa.Value(vi.Params[1])
+		}
+		c.Check(ok, "O17.7", fk(vi)+":resolver-error-fails-decoding", vi.Pos(), "VariableInjectHook returns the error of ResolveCustomTags(str, targetType) and passes the string through unchanged only on ErrNoTagsFound")
+	}
+	// ResolveCustomTags: resolver error returned
+	if rt := P.Func("lib/confutil", "", "ResolveCustomTags"); rt != nil {
+		ok := false
+		EachInstr(rt, func(in ssa.Instruction) {
+			cl, isC := in.(*ssa.Call)
+			if !isC || cl.Call.StaticCallee() != nil || cl.Call.IsInvoke() {
+				return
+			}
+			if _, isB := cl.Call.Value.(*ssa.Builtin); isB {
+				return
+			}
+			// the dynamic call of the resolver
+			if sig := cl.Call.Signature(); sig.Params().Len() == 1 && sig.Results().Len() == 2 {
+				ok = checkErrPropagated(c, "O17.7", fk(rt)+":resolver-error-returned", cl)
+			}
+		})
+		c.Check(ok, "O17.7", fk(rt)+":resolver-called-and-checked", rt.Pos(), "ResolveCustomTags calls the registered resolver and returns its error")
+	}
+	_ = os.Getenv
+	_ = filepath.Join
 }
